@@ -20,12 +20,12 @@ META = {
     "text": "Lean theorems for values and tasks of any size, digest function H a parameter: the hash of a value and the "
     "checksum of a task are the same for any two presentations of the same content — any iteration order of sets, any "
     "insertion order of dicts, any object identities, i.e. whatever PYTHONHASHSEED, the process or a pickling round trip "
-    "make of it — provided every set's elements and every dict's keys are totally ordered by Python's < "
-    "(C07_value_env_invariant, C07_checksum_env_invariant, C07_pickle_roundtrip); Job.checksum is a function of the task "
-    "alone: cache_root, worker, seed and pid are not among its arguments (C07_cache_root_worker_indep).  Witnesses for what "
-    "the tree does not satisfy (D6): a task value with two xor groups is hashed through a frozenset of frozensets whose two "
-    "iteration orders give different byte strings (C07_witness_xor), and an xor group containing None makes hashing the task "
-    "raise TypeError (C07_witness_xor_none).  The model is tied to the code by hashing the same serialized values and tasks "
+    "make of it — unconditionally for sets and frozensets (ordered by the digests of their elements since fix 847ae56e), and for "
+    "dicts whose keys Python's < orders totally (C07_value_env_invariant, C07_checksum_env_invariant, C07_pickle_roundtrip); "
+    "Job.checksum is a function of the task alone: cache_root, worker, seed and pid are not among its arguments "
+    "(C07_cache_root_worker_indep).  Repaired defect D6: a task value with two xor groups (a frozenset of frozensets) now gets "
+    "one hash for both iteration orders and an xor group containing None no longer raises (C07_regression_xor, "
+    "C07_regression_xor_none; the old algorithm is documented by C07_old_xor_sorted_by_value).  The model is tied to the code by hashing the same serialized values and tasks "
     "in the parent and in 3 (quick) / 6 (thorough) fresh interpreters with other PYTHONHASHSEEDs, after a cloudpickle round "
     "trip, with shuffled insertion orders, and by running tasks with other cache roots and workers; every child reports the "
     "iteration orders it saw, and the model must reproduce each child's digest hex for hex.",
@@ -54,8 +54,9 @@ OBLIGATIONS = [
         "C07_pickle_roundtrip",
         "C07_cache_root_worker_indep",
         "C07_sorted_total",
-        "C07_witness_xor",
-        "C07_witness_xor_none",
+        "C07_regression_xor",
+        "C07_regression_xor_none",
+        "C07_old_xor_sorted_by_value",
         "heads_prefix_free",
         "Sources.sources_ok",
     )
@@ -78,7 +79,7 @@ def gen_value(rng):
     if r < 0.55:  # chains of frozensets are totally ordered by proper subset
         a = [H.gen_key(rng, "str") for _ in range(3)]
         return {"k": "frozenset", "xs": [{"k": "frozenset", "xs": a[:1]}, {"k": "frozenset", "xs": a[:2]}, {"k": "frozenset", "xs": a}]}
-    if r < 0.62:  # D6 region
+    if r < 0.62:  # sets of incomparable sets (D6, repaired): must be seed independent
         ks = rng.sample(H.STRS, 4)
         return {"k": "frozenset", "xs": [{"k": "frozenset", "xs": [H._s(ks[0]), H._s(ks[1])]}, {"k": "frozenset", "xs": [H._s(ks[2]), H._s(ks[3])]}]}
     return H.gen_value(rng, rng.randint(1, 4))
@@ -114,13 +115,13 @@ def _task_values_ok(spec) -> bool:
 
 
 def d6_kind_of_task(spec) -> str | None:
-    """D6 match rule at task level: the task is hashed as a value (split / nested) and its xor groups are not totally
-    ordered: two or more groups (partial order) or a group containing None (TypeError)."""
+    """(D6 is repaired: xor groups are ordered by digest.)  Kept for the distribution count only: tasks that were in the D6
+    region — two or more xor groups, or a group containing None — and must now behave like all others."""
     groups = spec.get("xor") or []
     if any(None in g for g in groups):
-        return "typeerror"
+        return "none-in-group"
     if len(groups) >= 2:
-        return "partial"
+        return "several-groups"
     return None
 
 
@@ -219,20 +220,14 @@ def judge_values(ctx, vrows):
             if all(m is not None for m in ms):
                 model = {"parent": ms[0], "children": ms[1:]}
                 if r["shuffled"] is not None:
-                    model["shuffled"] = r["shuffled"] if H.unordered_elements(r["spec"]) else ms[0]
+                    model["shuffled"] = ms[0]
             else:
                 ctx.count("model-declines")
         allh = [obs["parent"]] + obs["children"] + ([obs["shuffled"]] if "shuffled" in obs else [])
         ok = not any(h.startswith("!") for h in allh) and len(set(allh)) == 1
         u = H.unordered_elements(r["spec"])
-        defect = None
-        if not ok:
-            errs = {h for h in allh if h.startswith("!")}
-            if u == "typeerror" and errs == {"!TypeError"} and len(errs) == len(set(allh)):
-                defect = "D6"
-            elif u == "partial" and not errs:
-                defect = "D6"
-        ctx.count("value:" + ("d6-region" if u else "ordered"))
+        defect = None  # no finding is listed for C07: every disagreement between sessions is a violation
+        ctx.count("value:" + ("unorderable-dict-keys" if u else ("set-of-sets" if any(n["k"] in ("set", "frozenset") and sum(1 for e in n["xs"] if e["k"] in ("set", "frozenset")) >= 2 for n in H.walk(r["spec"])) else "other")))
         ctx.count("value-root:" + r["spec"]["k"])
         ctx.judge(
             {"kind": "value", "spec": r["spec"]},
@@ -305,15 +300,7 @@ def judge_tasks(ctx, trows):
                 ok = ok and len({json.dumps(w) for w in obs["workflow_dirs"]}) == 1
         d6 = d6_kind_of_task(spec["task"])
         defect = None
-        if not ok and d6 and spec.get("hash_value"):
-            # the checksum itself must still be stable; only the hash of the task-as-a-value may vary / raise
-            cs_ok = not str(obs["checksum"]).startswith("!") and all(c == obs["checksum"] for c in obs["children"])
-            hx = obs["value_hex"]
-            if cs_ok and d6 == "typeerror" and set(hx) == {"!TypeError"}:
-                defect = "D6"
-            elif cs_ok and d6 == "partial" and not any(h is None or h.startswith("!") for h in hx):
-                defect = "D6"
-        ctx.count("task:" + spec["task"]["kind"] + (":d6-region" if d6 else ""))
+        ctx.count("task:" + spec["task"]["kind"] + ((":" + d6) if d6 else ""))
         ctx.judge(
             {"kind": "task", **spec},
             obs,
@@ -355,24 +342,20 @@ def correspondence(ctx):
     vrows, trows = observe(ctx, values, tasks, moddir)
     t1 = _time.process_time(), _time.time()
     ctx.extra["phase_s"] = {"observe_wall": round(t1[1] - t0[1], 1), "observe_parent_cpu": round(t1[0] - t0[0], 1)}
-    # known finding D6: replay of the corpus witnesses
-    if any(f["id"] == "D6" for f in ctx.known()):
-        det = []
-        fails = False
-        for r, row in zip([r for r in rows if r["kind"] == "value"], vrows):
-            if r.get("finding") == "D6":
-                hs = {row["parent"], *[c["hex"] for c in row["children"]]}
-                bad = len(hs) > 1 or any(h.startswith("!") for h in hs)
-                fails = fails or bad
-                det.append(f"{r['name']}: {sorted(hs)[:3]}")
-        for r, row in zip([r for r in rows if r["kind"] == "task"], trows):
-            if r.get("finding") == "D6":
-                hs = {row.get("parent_hex"), *[c.get("hex") for c in row["children"]]}
-                wd = {json.dumps(sorted(d for d in c.get("dirs", []) if d.startswith("workflow-"))) for c in row["children"] if "dirs" in c}
-                bad = len(hs) > 1 or any(h is None or h.startswith("!") for h in hs) or len(wd) > 1
-                fails = fails or bad
-                det.append(f"{r['name']}: value hashes {sorted(map(str, hs))[:3]}, workflow dirs {sorted(wd)[:3]}")
-        ctx.finding("D6", fails, "; ".join(det)[:900])
+    # regression of the repaired D6: the corpus witnesses must be seed independent and must not raise
+    for r, row in zip([r for r in rows if r["kind"] == "value"], vrows):
+        if r.get("fixed"):
+            hs = {row["parent"], *[c["hex"] for c in row["children"]]}
+            if len(hs) > 1 or any(h.startswith("!") for h in hs):
+                ctx.notes.append(f"fixed defect {r['fixed']} fails again: {r['name']}: {sorted(hs)[:3]}")
+    for r, row in zip([r for r in rows if r["kind"] == "task"], trows):
+        if r.get("fixed"):
+            hs = {row.get("parent_hex"), *[c.get("hex") for c in row["children"]]}
+            wd = {json.dumps(sorted(d for d in c.get("dirs", []) if d.startswith("workflow-"))) for c in row["children"] if "dirs" in c}
+            if len(hs) > 1 or any(h is None or h.startswith("!") for h in hs) or len(wd) > 1:
+                ctx.notes.append(f"fixed defect {r['fixed']} fails again: {r['name']}: {sorted(map(str, hs))[:3]} {sorted(wd)[:3]}")
+    for f in ctx.known():
+        ctx.finding(f["id"], False, "no witness in the C07 corpus")
     t2 = _time.time()
     judge_values(ctx, vrows)
     judge_tasks(ctx, trows)
